@@ -169,6 +169,18 @@ func c06Def[X any](site string, routes func(*X) []c06Route, fresh func() c06Obj,
 
 func one(o c06Obj) []c06Route { return []c06Route{{obj: o}} }
 
+// c06AndXWords encodes an AndX block through GetParameters.
+type c06AndXWords struct{ a *andx.AndX }
+
+func (w *c06AndXWords) Marshal() ([]byte, error) {
+	var out []byte
+	for _, word := range w.a.GetParameters() {
+		out = append(out, byte(word>>8), byte(word))
+	}
+	return out, nil
+}
+func (w *c06AndXWords) Unmarshal(b []byte) (int, error) { return w.a.Unmarshal(b) }
+
 // c06Rejects stands for a value the library refused to build although it is inside the type's domain: its Marshal reports that.
 type c06Rejects struct{ why string }
 
@@ -362,7 +374,9 @@ var c06Codecs = map[string]*c06Codec{
 		func(x *xAndX) []c06Route {
 			a := andx.NewAndX()
 			a.AndXCommand, a.AndXReserved, a.AndXOffset = codes.CommandCode(x.AndXCommand), uint8(x.AndXReserved), uint16(x.AndXOffset)
-			return one(a)
+			// the block's second encoder: the two parameter words every AndX command puts on the wire (GetParameters), in
+			// the byte order of the parameter block (parameters.Parameters.Marshal writes each word high byte first)
+			return []c06Route{{obj: a}, {name: "GetParameters", site: "andx.AndX.GetParameters", obj: &c06AndXWords{a}}}
 		},
 		func() c06Obj { return andx.NewAndX() },
 		func(o c06Obj) *xAndX {
